@@ -37,6 +37,28 @@ CHECKS = {
     design_ref="DESIGN.md section 3 C16",
     note="Outcomes are compared as digests of (projected module, errors, exception type/message/position); object addresses in messages are masked.",
     technique="TLA+ session model + TLC; code->spec trace validation of call histories"),
+ "C05": dict(
+    text="TLC explores the reference grammar (spec/PvlGrammar.tla, a deterministic push-down machine with an explicit tree) over every "
+         "token sequence <= 7 (8 thorough) whose proper prefixes are live - i.e. every truncation and every one-token dead extension - and prints "
+         "the reference outcome of each; every sequence is spelled canonically in two layouts and loaded with the 5 parser configurations; "
+         "a module returned where the reference rejects is a violation.",
+    design_ref="DESIGN.md section 3 C05",
+    note="Token level only so far (one canonical spelling per token kind); the character-level loader spec extends this to free spellings and damaged real labels.",
+    technique="TLA+ push-down reference grammar + TLC bounded exhaustive exploration; spec->code replay of every explored token sequence"),
+ "C06": dict(
+    text="Same exploration as C05 (every token sequence the reference grammar explores, 5 configurations, 2 layouts), each load under a watchdog: "
+         "a hang or an exception other than LexerError/ParseError is a violation.",
+    design_ref="DESIGN.md section 3 C06",
+    note="Token level (<= 7/8 tokens) so far; termination is shown for the enumerated inputs only.",
+    technique="TLA+ push-down reference grammar + TLC bounded exhaustive exploration; spec->code replay under a watchdog"),
+ "C08": dict(
+    text="TLC explores the tolerant variant of the reference grammar (missing value after '=' before END, an end/begin keyword, ';', end of text, "
+         "or a word that is itself followed by '='), with token i on line i; every explored sequence <= 7 (9 thorough) is loaded with the default and "
+         "the ISIS configuration and must give the reference's statements, placeholders, line numbers and errors list; every text with a repaired value "
+         "must be rejected by the strict PVL/ODL/PDS3 parsers.",
+    design_ref="DESIGN.md section 3 C08",
+    note="Token level, two layouts (one token per line; all on one line).",
+    technique="TLA+ push-down reference grammar (tolerant variant) + TLC; spec->code replay"),
 }
 PENDING_REASON = "check not built yet in this round (planned, see DESIGN.md section 6); not claimed until it runs"
 ALL = ["C%02d" % i for i in range(1, 21)]
